@@ -189,6 +189,9 @@ class Check:
             s = re.sub(r"(?s)#\[cfg\(feature = \"verif\"\)\]\nimpl Window \{.*?\n\}\n", "", s)
             if re.search(r"\bunsafe\b", s):
                 self.unsafe_free = False
+        # many #[kani::stub] attributes on one harness exceed the default macro recursion limit
+        lib = os.path.join(self.crate, "src", "lib.rs")
+        open(lib, "w").write('#![recursion_limit = "512"]\n' + open(os.path.join(REPO, "src", "lib.rs")).read())
         mods = set(i.module for i in self.insts)
         if "worker" in mods:
             mods.add("window")  # remove_model stub lives in the window harness module
